@@ -697,16 +697,16 @@ class BaseShampooPreconditionerList(
             # Reset counter for failed amortized computations.
             self._masked_failed_amortized_computation_counter_list[
                 preconditioner_index
-            ] = 0
+            ][0] = 0
         else:
             # Increment counter for failed amortized computations.
             self._masked_failed_amortized_computation_counter_list[
                 preconditioner_index
-            ] += 1
+            ][0] += 1
             # Raise the exception if the tolerance at the given index is exceeded.
             failure_counter = self._masked_failed_amortized_computation_counter_list[
                 preconditioner_index
-            ]
+            ][0]
             tolerance = (
                 self._preconditioner_config.num_tolerated_failed_amortized_computations
             )
@@ -764,9 +764,10 @@ class BaseShampooPreconditionerList(
             self._inv_root_override,
             self._local_order_list,
         )
-        self._local_failed_amortized_computation_counter_list: list[int] = [0] * len(
-            self._local_kronecker_factors_list
-        )
+        # NOTE: Each counter is a single-element list so that the masked list shares its counters with the local list.
+        self._local_failed_amortized_computation_counter_list: list[list[int]] = [
+            [0] for _ in self._local_kronecker_factors_list
+        ]
         self._local_preconditioned_dims_selector_list: tuple[tuple[bool, ...], ...] = (
             preconditioned_dims_selector_list
         )
@@ -774,7 +775,7 @@ class BaseShampooPreconditionerList(
         # Masked lists are the list of active preconditioners or values after filtering out gradients with None.
         self._masked_order_list: tuple[int, ...] = self._local_order_list
         self._masked_root_list: tuple[int, ...] = self._local_root_list
-        self._masked_failed_amortized_computation_counter_list: list[int] = (
+        self._masked_failed_amortized_computation_counter_list: list[list[int]] = (
             self._local_failed_amortized_computation_counter_list
         )
         self._masked_kronecker_factors_list: tuple[
@@ -810,7 +811,7 @@ class BaseShampooPreconditionerList(
             self._masked_root_list: tuple[int, ...] = compress_list(  # type: ignore[no-redef]
                 self._local_root_list, local_grad_selector
             )
-            self._masked_failed_amortized_computation_counter_list: list[int] = (  # type: ignore[no-redef]
+            self._masked_failed_amortized_computation_counter_list: list[list[int]] = (  # type: ignore[no-redef]
                 list(
                     compress_list(
                         self._local_failed_amortized_computation_counter_list,
